@@ -18,13 +18,13 @@ import (
 	"time"
 
 	"github.com/tmpim/casket"
+	"github.com/tmpim/casket/casketfile"
+	_ "github.com/tmpim/casket/caskethttp/basicauth"
 	casketerrors "github.com/tmpim/casket/caskethttp/errors"
+	_ "github.com/tmpim/casket/caskethttp/gzip"
 	"github.com/tmpim/casket/caskethttp/httpserver"
 	casketlog "github.com/tmpim/casket/caskethttp/log"
-	_ "github.com/tmpim/casket/caskethttp/basicauth"
-	_ "github.com/tmpim/casket/caskethttp/gzip"
 	_ "github.com/tmpim/casket/caskethttp/rewrite"
-	"github.com/tmpim/casket/casketfile"
 
 	"verifharness/hx"
 )
@@ -89,6 +89,8 @@ func (p c20Probe) ServeHTTP(w http.ResponseWriter, r *http.Request) (int, error)
 			r.URL = &u
 		case 'h':
 			w.WriteHeader(n)
+		case 'l':
+			w.Header().Set("Content-Length", strconv.Itoa(n))
 		case 'w':
 			w.Write(make([]byte, n))
 		case 'f':
@@ -112,6 +114,101 @@ type c20RFClient struct{ *httptest.ResponseRecorder }
 
 func (c c20RFClient) ReadFrom(src io.Reader) (int64, error) {
 	return io.Copy(struct{ io.Writer }{c.ResponseRecorder}, src)
+}
+
+// c20CLWriter enforces a declared Content-Length the way net/http's response does (server.go,
+// response.WriteHeader / response.write): the length in the header map when the header goes out is
+// the one in effect; every Write first sends the header (200 unless WriteHeader came first), then a
+// Write of n > 0 bytes that takes the bytes asked for so far beyond the length is refused with
+// http.ErrContentLength and sends nothing.  Under it sits the httptest recorder playing the client.
+type c20CLWriter struct {
+	rec       *httptest.ResponseRecorder
+	committed bool
+	limit     int64
+	asked     int64
+}
+
+func (c *c20CLWriter) Header() http.Header { return c.rec.Header() }
+
+func (c *c20CLWriter) commit(status int) {
+	if c.committed {
+		return
+	}
+	c.committed = true
+	c.limit = -1
+	if v, err := strconv.ParseInt(c.rec.Header().Get("Content-Length"), 10, 64); err == nil && v >= 0 {
+		c.limit = v
+	}
+	c.rec.WriteHeader(status)
+}
+
+func (c *c20CLWriter) WriteHeader(status int) {
+	if status >= 100 && status <= 199 && status != http.StatusSwitchingProtocols {
+		return
+	}
+	c.commit(status)
+}
+
+func (c *c20CLWriter) Write(p []byte) (int, error) {
+	c.commit(http.StatusOK)
+	if len(p) == 0 {
+		return 0, nil
+	}
+	c.asked += int64(len(p))
+	if c.limit != -1 && c.asked > c.limit {
+		return 0, http.ErrContentLength
+	}
+	return c.rec.Write(p)
+}
+
+func (c *c20CLWriter) Flush() { c.commit(http.StatusOK) }
+
+// c20CLWriterRF is the same with an io.ReaderFrom (every chunk goes through the enforcing Write).
+type c20CLWriterRF struct{ *c20CLWriter }
+
+func (c c20CLWriterRF) ReadFrom(src io.Reader) (int64, error) {
+	return io.Copy(struct{ io.Writer }{c.c20CLWriter}, src)
+}
+
+// c20Declares: does the script declare a Content-Length?  c20Refusals: which of its own Write
+// calls net/http refuses (static, from the script alone; used for tags and to validate the case).
+func c20Declares(ops []string) bool {
+	for _, op := range ops {
+		if op[0] == 'l' {
+			return true
+		}
+	}
+	return false
+}
+
+func c20Refusals(ops []string) (first, later bool) {
+	declared, limit := int64(-1), int64(-1)
+	committed, asked, writes := false, int64(0), 0
+	for _, op := range ops {
+		n, _ := strconv.ParseInt(op[1:], 10, 64)
+		switch op[0] {
+		case 'l':
+			declared = n
+		case 'h', 'f':
+			if !committed && !(op[0] == 'h' && n >= 100 && n <= 199 && n != 101) {
+				committed, limit = true, declared
+			}
+		case 'w':
+			if !committed {
+				committed, limit = true, declared
+			}
+			writes++
+			asked += n
+			if n > 0 && limit != -1 && asked > limit {
+				if writes == 1 {
+					first = true
+				} else {
+					later = true
+				}
+			}
+		}
+	}
+	return
 }
 
 func c20ErrLen(status int) int {
@@ -209,6 +306,21 @@ func c20LogEval(f []string) (string, []string) {
 		}
 		s.ret, _ = strconv.Atoi(p[2])
 		probe.scripts[strconv.Itoa(i)] = s
+		for _, op := range s.ops {
+			if op == "" {
+				return "bad-case", nil
+			}
+		}
+		if c20Declares(s.ops) {
+			if f[4] == "gzip" {
+				return "bad-case", nil
+			}
+			for _, op := range s.ops {
+				if op[0] == 'c' || op[0] == 'n' || op[0] == 's' {
+					return "bad-case", nil
+				}
+			}
+		}
 		anyPanic = anyPanic || s.panics
 		anyErr = anyErr || s.ret >= 400
 		if s.ret >= 400 && len(s.ops) > 0 {
@@ -311,6 +423,11 @@ func c20LogEval(f []string) (string, []string) {
 			}
 			b, err := io.ReadAll(resp.Body)
 			resp.Body.Close()
+			if err == io.ErrUnexpectedEOF && c20Declares(probe.scripts[strconv.Itoa(i)].ops) {
+				// fewer bytes than the declared Content-Length were sent and the server closed the
+				// connection: the status and the bytes that did arrive are what the client received
+				err = nil
+			}
 			if err != nil {
 				clients[i] = "client-error"
 				return
@@ -328,9 +445,14 @@ func c20LogEval(f []string) (string, []string) {
 			req.Header.Set("Accept-Encoding", "gzip")
 		}
 		rec := httptest.NewRecorder()
-		if f[5] == "rf" {
+		switch declares := c20Declares(probe.scripts[strconv.Itoa(i)].ops); {
+		case declares && f[5] == "rf":
+			srv.ServeHTTP(c20CLWriterRF{&c20CLWriter{rec: rec}}, req)
+		case declares:
+			srv.ServeHTTP(&c20CLWriter{rec: rec}, req)
+		case f[5] == "rf":
 			srv.ServeHTTP(c20RFClient{rec}, req)
-		} else {
+		default:
 			srv.ServeHTTP(rec, req)
 		}
 		clients[i] = fmt.Sprintf("%d.%d", rec.Code, rec.Body.Len())
@@ -438,6 +560,22 @@ func c20LogEval(f []string) (string, []string) {
 	}
 	tags = append(tags, "writer="+f[5])
 	for _, sc := range probe.scripts {
+		if c20Declares(sc.ops) {
+			tags = append(tags, "content-length-declared:"+f[5])
+			first, later := c20Refusals(sc.ops)
+			if first {
+				tags = append(tags, "first-write-refused:"+f[5])
+				if sc.ret >= 400 && !sc.panics {
+					tags = append(tags, "first-write-refused-then-error-status:"+f[5])
+				}
+			}
+			if later {
+				tags = append(tags, "later-write-refused")
+			}
+			if !first && !later && sc.ret >= 400 {
+				tags = append(tags, "error-body-refused-or-fits")
+			}
+		}
 		for _, op := range sc.ops {
 			switch op[0] {
 			case 'c', 'n', 's':
@@ -474,6 +612,19 @@ var c20Outcomes = []string{
 	"s0:0:0", "c0:0:0", "c0.h302:404:0", "n0.h404.w3:0:0", "w0.h404:0:0", "c5:500:0", "c5::1x", "w2.f.c40000:0:0",
 	// Flush sends the header
 	"f.w3:0:0", "f:0:0", "f.h404.w2:0:0", "h201.f.n6:0:0", "f:404:0",
+}
+
+// c20FaultOutcomes: the handler declares a Content-Length and the writer under the recorder refuses
+// what exceeds it.  First Write refused (with and without a returned error status, a later
+// WriteHeader by the handler, a panic), refusal only after a successful Write, explicit WriteHeader
+// or Flush first, the length declared too late, nothing written at all, the exact fit.
+var c20FaultOutcomes = []string{
+	"l0.w5:500:0", "l5.w10:500:0", "l0.w5:502:0", "l0.w5:404:0", "l0.w5:0:0", "l0.w5:200:0", "l3.w70000:503:0",
+	"l0.w5.h404:0:0", "l0.w5.h500.w3:0:0", "l2.w5.w1:0:0", "l2.w5.w1:500:0", "l0.w5::1x",
+	"l5.w5.w1:500:0", "l5.w5:0:0", "l4.w2.w2.w1:502:0", "l9.w4:0:0", "l9.w4:500:0",
+	"l3.h200.w5:500:0", "l3.h404.w5:0:0", "l0.f.w5:404:0", "l0.f:500:0", "h404.l0.w3:0:0", "w2.l0.w3:500:0",
+	"l0:500:0", "l0:0:0", "l7:404:0", "l0.w0:500:0", "l0.w0.w4:500:0", "l0.l6.w5:500:0", "l6.l0.w5:500:0",
+	"l0.p2f61.w3:500:0", "l0.w3.u2f63:404:0",
 }
 
 // c20PathOutcomes: handlers that change the request path before answering; targets on both sides
@@ -584,6 +735,19 @@ func c20LogGen(g *hx.Gen) {
 			}
 		}
 	}
+	// 2b. the writer under the recorder refuses writes (declared Content-Length): every fault
+	//     outcome, in and out of scope, over the three writers, bare / with errors / with rewrite,
+	//     and on a block whose first log excepts the path
+	for _, o := range c20FaultOutcomes {
+		for _, p := range []string{"/a/x", "/zzz"} {
+			for _, kind := range []string{"plain", "rf", "h1"} {
+				for _, wrap := range []string{"-", "errors", "rewrite"} {
+					c20LogCase(g, []string{c20Dir("/a"), c20Dir("/a")}, false, []string{hx.HS(p) + ":" + c20Outcome(o)}, wrap, kind)
+				}
+				c20LogCase(g, []string{c20Dir("/", "/a/x"), c20Dir("/")}, false, []string{hx.HS(p) + ":" + c20Outcome(o)}, "-", kind)
+			}
+		}
+	}
 	c20LogCase(g, nil, false, allReqs())
 	c20LogCase(g, []string{c20Dir("/")}, false, nil)
 	// 3. seeded random blocks, random requests, some issued concurrently
@@ -600,10 +764,35 @@ func c20LogGen(g *hx.Gen) {
 			}
 			dirs = append(dirs, c20Dir(hx.Pick(g.Rng, c20Scopes), ex...))
 		}
+		wrap := hx.Pick(g.Rng, []string{"-", "-", "errors", "rewrite", "gzip"})
 		var reqs []string
 		for i, n := 0, 1+g.Rng.Intn(12); i < n; i++ {
 			o := hx.Pick(g.Rng, outcomes)
-			if g.Rng.Chance(1, 3) {
+			if wrap != "gzip" && g.Rng.Chance(1, 5) {
+				// a writer fault: a listed one, or a random script of small writes under a small
+				// declared length
+				o = hx.Pick(g.Rng, c20FaultOutcomes)
+				if g.Rng.Bool() {
+					ops := []string{fmt.Sprintf("l%d", g.Rng.Intn(12))}
+					for j, m := 0, g.Rng.Intn(4); j < m; j++ {
+						switch g.Rng.Intn(6) {
+						case 0:
+							ops = append(ops, fmt.Sprintf("h%d", hx.Pick(g.Rng, []int{200, 201, 302, 404, 500, 503})))
+						case 1:
+							ops = append(ops, "f")
+						default:
+							ops = append(ops, fmt.Sprintf("w%d", g.Rng.Intn(9)))
+						}
+					}
+					if g.Rng.Chance(1, 4) {
+						ops[0], ops[len(ops)-1] = ops[len(ops)-1], ops[0] // the length declared last
+					}
+					o = strings.Join(ops, ".") + ":" + strconv.Itoa(hx.Pick(g.Rng, []int{0, 0, 200, 404, 500, 502})) + ":0"
+					if g.Rng.Chance(1, 10) {
+						o = strings.Join(ops, ".") + ":0:1"
+					}
+				}
+			} else if g.Rng.Chance(1, 3) {
 				// random script
 				var ops []string
 				for j, m := 0, g.Rng.Intn(4); j < m; j++ {
@@ -631,7 +820,7 @@ func c20LogGen(g *hx.Gen) {
 			}
 			reqs = append(reqs, hx.HS(hx.Pick(g.Rng, c20Paths))+":"+c20Outcome(o))
 		}
-		c20LogCase(g, dirs, g.Rng.Chance(1, 2), reqs, hx.Pick(g.Rng, []string{"-", "-", "errors", "rewrite", "gzip"}), hx.Pick(g.Rng, []string{"plain", "plain", "rf", "h1"}))
+		c20LogCase(g, dirs, g.Rng.Chance(1, 2), reqs, wrap, hx.Pick(g.Rng, []string{"plain", "plain", "rf", "h1"}))
 	}
 }
 
